@@ -440,13 +440,16 @@ pub fn glob_match_bytes(pat: &[u8], text: &[u8]) -> bool {
         // Handle '**' (may be followed by a '/')
         if p[0] == b'*' && p.get(1) == Some(&b'*') {
             let mut rest = &p[2..];
+            let mut dir_only = false;
             if rest.first() == Some(&b'/') {
                 rest = &rest[1..];
+                dir_only = true;
             }
-            // Try to match rest at every position (including current), advancing through any chars
+            // Try to match rest at every position (including current), advancing through any chars.
+            // `**/` stands for zero or more whole directories, so it may only end at a '/'.
             let mut i = 0usize;
             loop {
-                if match_from(rest, &t[i..]) {
+                if (!dir_only || i == 0 || t[i - 1] == b'/') && match_from(rest, &t[i..]) {
                     return true;
                 }
                 if i >= t.len() {
